@@ -291,7 +291,15 @@ pub fn gen_model(rng: &mut Rng, tier: Tier) -> Model {
         }
     }
     let nx = if rng.chance(1, 3) { rng.range(1, 4) as usize } else { 0 };
-    let xff = (0..nx).map(|_| random_ip(rng)).collect();
+    let mut xff: Vec<String> = (0..nx).map(|_| random_ip(rng)).collect();
+    // sometimes an entry that is not an address sits among the valid ones (it is skipped)
+    {
+        let mut r4 = Rng::new(humsim::rng::mix(&[rng.next_u64(), 0xC02_0004]));
+        if !xff.is_empty() && r4.chance(1, 6) {
+            let at = r4.usize_below(xff.len() + 1);
+            xff.insert(at, ["unknown", "10.0.0.1:4711", "[2001:db8::1]", "_hidden"][r4.usize_below(4)].to_string());
+        }
+    }
     let has_body = rng.chance(1, 2);
     let blen = if !has_body {
         0
